@@ -165,6 +165,74 @@ def multinomial(pr):
                  [(p.pc, p.result.eq(c * (1 - c / tot))) for p in paths if not p.panic])
 
 
+def extreme_weights_corpus():
+    """BOUNDED: weighted mean inside [min, max] of the samples for weights and samples at magnitudes where exact reals
+    say nothing (subnormal weights, 1e-200, 1e200; samples from 1e-300 to 1e150).  Three obligations: every add-only
+    history; merges whose products weight*mean stay inside the f64 range; merges whose products under- or overflow.
+    effective_len in [1, len] is checked for weights in [1e-150, 1e150] only (beyond that W^2 or sum w^2 leave the f64
+    range, which the claim cannot be meant to cover)."""
+    import replay
+    from common import Obligation, DISCHARGED, REFUTED, UNDECIDED
+    sub = 5e-324
+    cases = [
+        ([(1.7, sub)], False), ([(0.3, sub), (0.9, 3 * sub)], False), ([(1.2345e-120 * (1 + k * 2.0 ** -50), 1e-200) for k in range(4)], False),
+        ([(0.51, 20 * sub)] * 10, False), ([(1e150, 1e-200), (-1e150, 1e-200), (3.0, 1e-200)], False),
+        ([(1.0, 1e200), (2.0, 1e200), (4.0, 3e200)], False), ([(1e-300, 1.0), (3e-300, 2.0), (2e-300, 0.5)], False),
+        ([(1.0, 1e-150), (2.0, 1e150), (3.0, 1.0)], True), ([(5.0, 1e150), (7.0, 1e150), (6.0, 1e150)], True),
+        ([(5.0, 1e-150), (7.0, 1e-150), (6.0, 3e-150), (8.0, 0.0)], True), ([(1e150, 1e-6), (-1e150, 1e6), (0.0, 1.0)], True),
+        ([(1e150, 1e200), (1.5e150, 2e200)], False), ([(0.25, sub), (0.75, sub), (0.5, 2 * sub)], False),
+    ]
+
+    def products_in_range(pts):
+        return all(w == 0 or x == 0 or 1e-290 <= abs(w * x) <= 1e290 for x, w in pts)
+    groups = {"add_only": [], "merge_products_representable": [], "merge_products_outside_f64_range": []}
+    for pts, eff in cases:
+        groups["add_only"].append((pts, eff, {"type": "WeightedMeanWithError", "ctor": ["new"], "ops": [["add2", x, w] for x, w in pts],
+                                              "observe": ["weighted_mean", "effective_len", "len"]}, "weighted_mean"))
+        g = "merge_products_representable" if products_in_range(pts) else "merge_products_outside_f64_range"
+        if len(pts) >= 2:
+            groups[g].append((pts, False, {"type": "WeightedMean", "ctor": ["new"], "ops": [["add2", x, w] for x, w in pts[:1]] + [
+                ["merge", {"type": "WeightedMean", "ctor": ["new"], "ops": [["add2", x, w] for x, w in pts[1:]]}]], "observe": ["mean"]}, "mean"))
+    out = []
+    fn = "src/weighted_mean.rs::{WeightedMean,WeightedMeanWithError}::{add,merge,mean,effective_len} on the real crate"
+    for gname, items in groups.items():
+        name = "C17.weighted.extreme_weights.%s" % gname
+        bound = "%d weighted samples with subnormal / 1e-200 / 1e200 weights and samples from 1e-300 to 1e150" % len(items)
+        results = replay.run_programs([it[2] for it in items], timeout=900)
+        verdict = None
+        for (pts, eff, pg, key), res in zip(items, results):
+            if res.get("error"):
+                verdict = Obligation(name, fn, "replay+oracle", UNDECIDED, 0.0, "replay failed: " + res["error"], bounded=bound, kind="bounded")
+                break
+            xs = [x for x, w in pts if w > 0]
+            lo, hi, n = min(xs), max(xs), len(pts)
+            slack = 8 * n * 2.0 ** -53 * max(abs(lo), abs(hi))
+            v = res["obs"].get(key)
+            if res["panic"] or v is None or v != v or not (lo - slack <= v <= hi + slack):
+                verdict = Obligation(name, fn, "replay+oracle", REFUTED, 0.0, "%s = %r for samples in [%r, %r] (weights %s)" % (key, v, lo, hi, [repr(w) for _, w in pts][:4]),
+                                     cex={"class": {"group": gname, "kind": "mean_outside_range"}, "program": pg, "statistic": key,
+                                          "expected": "within [%r, %r]" % (lo, hi), "actual": repr(v)}, bounded=bound, kind="bounded")
+                break
+            if eff:
+                e = res["obs"].get("effective_len")
+                if e is None or e != e or not (1 - n * 2.0 ** -50 <= e <= n * (1 + n * 2.0 ** -50)):
+                    verdict = Obligation(name, fn, "replay+oracle", REFUTED, 0.0, "effective_len = %r for %d observations" % (e, n),
+                                         cex={"class": {"group": gname, "kind": "effective_len"}, "program": pg, "statistic": "effective_len",
+                                              "expected": "within [1, %d]" % n, "actual": repr(e)}, bounded=bound, kind="bounded")
+                    break
+        out.append(verdict or Obligation(name, fn, "replay+oracle", DISCHARGED, 0.0, "weighted means inside the sample range", bounded=bound, kind="bounded",
+                                         text="weighted mean range at extreme weights"))
+    return out
+
+
+def confirm(ob):
+    c = ob.cex or {}
+    if c.get("program") and c.get("statistic"):
+        return {"program": c["program"], "expected": {c["statistic"]: c.get("expected")}, "actual": {c["statistic"]: c.get("actual")},
+                "confirmed_on_real_code": True}
+    return None
+
+
 def run(tier, seed):
     # float-heavy for CBMC (Moments4.add 470 s, Moments6.add 780 s, Moments6.merge 450 s, Kurtosis.merge 190 s): thorough tier
     slow = ("kurtosis_nonneg_merge", "vm4::verif_kani::mn_nonneg_add", "vm6::verif_kani::mn_nonneg_add", "vm6::verif_kani::mn_nonneg_merge")
@@ -175,6 +243,7 @@ def run(tier, seed):
     weights(pr)
     multinomial(pr)
     obs += pr.obs
+    obs += extreme_weights_corpus()
     meta = {
         "level": "proof",
         "checker_cmd": "cargo kani (scratch copy + contracts/kani/{moments,covariance,moments_n}.rs); rsx -> RS executor -> z3 QF_NRA",
@@ -186,7 +255,8 @@ def run(tier, seed):
         "trusted_base": ["Kani 0.68 / CBMC 6.11 (bit-precise sign invariants)", "rsx + RS executor, z3 5.1 (range invariants under exact reals)"],
         "assumptions": ["K part (all f64, no restriction on kappa): !(sum_2 < 0) resp. m[0], sum_x_2, sum_y_2 is an inductive invariant of add and merge, so no variance accessor is ever < 0; 'defined' means not NaN; that no NaN arises for |x| <= 1e150 is not decided bit-precisely",
                         A_REAL + " for: mean within [min,max], weighted mean within range for w >= 0, W2 <= W^2 <= n*W2, effective_len in [1,len], bin variance in [0,total/4] (the 'up to C*n*2^-53*max|x|' slack is exactly what real semantics leaves out; a float bound |avg| <= B is not inductive)",
-                        A_INT, "configurations: define_moments! N in {4, 6}"],
+                        A_INT, "configurations: define_moments! N in {4, 6}",
+                        "weights / samples at magnitudes where f64 under- or overflows are exercised only by the BOUNDED corpus weighted.extreme_weights_corpus (effective_len only for weights in [1e-150, 1e150])"],
         "explanation": "sign invariants bit-precisely by Kani on fully symbolic states; range invariants as inductive invariants (base, add, merge) under exact reals.",
     }
-    return obs, meta, None
+    return obs, meta, confirm
